@@ -34,6 +34,7 @@ type VC struct {
 	ghostLocalSorts map[string]string
 	heapTrace       map[string]string
 	quiet           int
+	inputs          [][2]string // (label, term): symbolic inputs whose model values are reported
 }
 
 type Obligation struct {
@@ -52,6 +53,7 @@ type Obligation struct {
 	Output  string  `json:"output,omitempty"`
 	Expect  string  `json:"expect,omitempty"` // "fail" for canaries
 	Sweep   bool    `json:"sweep,omitempty"`
+	Values  map[string]string `json:"input_values,omitempty"`
 	vc      *VC
 	SMTFile string `json:"-"`
 }
